@@ -1,5 +1,6 @@
 """C01, C02, C17: bit core (data.go, internal/reinterpret). DESIGN.md 5.1, 5.2, 5.17."""
 import vlib
+from checks import translate_tie
 
 _NOTE = ("Trusted: Coq 8.16.1 kernel; extraction (ExtrOcamlBasic) + OCaml 4.13.1; the hand-written model Can/Data.v, "
          "validated against the code by the correspondence run; Go harness / OCaml driver / check.py glue. "
@@ -57,6 +58,7 @@ def harness_args(pid, tier, seed):
 def run(res, replay=None):
     pid = res.id
     vlib.proof_stage(res)
+    translate_tie.run_tie(res, ['can'])
     vlib.standard_run(
         res, "can", harness_args(pid, res.tier, res.seed), "can", RULES[pid],
         ["the Gallina model Can/Data.v is a faithful transcription of data.go / reinterpret.go: checked on every run by the "
